@@ -588,7 +588,8 @@ def main():
                  "Local Open Scope string_scope.", "Definition map_access_sites : N := 0%N.",
                  "Definition guard_across_await : list string := [%s]." % q("TRANSLATOR-SHAPE-ERROR: %s" % e),
                  "Definition chan_lock_sites : N := 0%N.",
-                 "Definition chan_lock_nested : list string := [%s]." % q("TRANSLATOR-SHAPE-ERROR: %s" % e), ""])
+                 "Definition chan_lock_nested : list string := [%s]." % q("TRANSLATOR-SHAPE-ERROR: %s" % e),
+                 "Definition exclusive_check_under_entry_guard : bool := false.", ""])
         try:
             files[os.path.join(VERIF, "coq/Gen/LockPrograms.v")] = locklint.gen_programs(REPO)
         except locklint.Shape as e:
